@@ -67,13 +67,15 @@ SelsAll == {"none", "choice", "type", "foo_bar"}
 SelsNone == {"none"}
 OneofOptsAll == {"none", "expose", "expose_false", "filtering", "list"}
 OneofOptsNone == {"none"}
-MsgOptsAll == {"none", "wrapper_deprecated", "type_object", "type_object_any", "type_oneof", "description", "psm", "psm_part", "list_request"}
+\* psm_part*: every value of the entity-part enumeration (P schema.proto EntityPart)
+MsgOptsAll == {"none", "wrapper_deprecated", "type_object", "type_object_any", "type_oneof", "description", "psm", "psm_part", "list_request",
+               "psm_part_state", "psm_part_event", "psm_part_data", "psm_part_refs", "psm_part_derived"}
 MsgOptsNone == {"none"}
 MsgOptsFew == {"none", "type_oneof", "psm"}
 \* value_prefixed: a value whose short name begins with the enum's prefix once more (E0_E0_X)
 EnumOptsAll == {"none", "no_default", "info_fields", "value_info", "value_prefixed"}
 EnumOptsNone == {"none"}
-RecAll == {"self", "mutual", "map", "repeated", "optional", "oneof", "flatchild", "flatclash", "oneofclash", "flatoneof"}
+RecAll == {"self", "mutual", "map", "repeated", "optional", "oneof", "flatchild", "flatclash", "oneofclash", "flatoneof", "nestclash"}
 \* reduced pools for pair exploration: one representative per class of the kind switch
 KindsPair == {"string", "bool", "int32", "fixed32", "fixed64", "double"}
 WktPair == {"Timestamp", "Struct", "Any", "Empty"}
